@@ -11,6 +11,8 @@ import (
 	"math"
 	"os"
 	"sort"
+	"sync"
+	"sync/atomic"
 	"testing"
 
 	v3clusterpb "github.com/envoyproxy/go-control-plane/envoy/config/cluster/v3"
@@ -88,7 +90,7 @@ func c45Seeds() []c45Seed {
 		VirtualHosts: []*v3routepb.VirtualHost{{Name: "vh", Domains: []string{"*"}, Routes: []*v3routepb.Route{
 			{Match: &v3routepb.RouteMatch{PathSpecifier: &v3routepb.RouteMatch_SafeRegex{SafeRegex: &v3matcherpb.RegexMatcher{Regex: "/a/.*"}}},
 				Action: &v3routepb.Route_Route{Route: &v3routepb.RouteAction{ClusterSpecifier: &v3routepb.RouteAction_ClusterSpecifierPlugin{ClusterSpecifierPlugin: "csp-ok"}}}},
-			{Match: prefix("/"), Action: cluster("default"), TypedPerFilterConfig: map[string]*anypb.Any{"router": {TypeUrl: "type.googleapis.com/envoy.extensions.filters.http.router.v3.Router"}}},
+			{Match: prefix("/"), Action: cluster("default"), TypedPerFilterConfig: map[string]*anypb.Any{"fault": {TypeUrl: "type.googleapis.com/envoy.extensions.filters.http.fault.v3.HTTPFault"}}},
 		}}}})
 	add(c45RDS, "rds non-forwarding + unsupported actions", &v3routepb.RouteConfiguration{Name: "rds-seed-3", VirtualHosts: []*v3routepb.VirtualHost{
 		{Name: "vh1", Domains: []string{"x"}, Routes: []*v3routepb.Route{{Match: prefix("/"), Action: &v3routepb.Route_NonForwardingAction{NonForwardingAction: &v3routepb.NonForwardingAction{}}}}},
@@ -250,82 +252,110 @@ func TestVerif_C45_XDSParse(t *testing.T) {
 
 	if os.Getenv("VERIF_C45_COUNT") != "" { // development aid: size of each grammar, nothing is checked
 		for _, g := range c45Gens {
-			n := 0
-			c45Enumerate(thorough, g.Gen, func([]uint8, proto.Message) bool { n++; return true })
-			fmt.Printf("grammar %s: %d derivations\n", g.Kind, n)
+			var n atomic.Int64
+			var wg sync.WaitGroup
+			sem := make(chan struct{}, 16)
+			for _, prefix := range c45Prefixes(thorough, g.Gen, 3) {
+				wg.Add(1)
+				sem <- struct{}{}
+				go func(prefix []uint8) {
+					defer wg.Done()
+					c45EnumerateFrom(thorough, g.Gen, prefix, func([]uint8, proto.Message) bool { n.Add(1); return true })
+					<-sem
+				}(prefix)
+			}
+			wg.Wait()
+			fmt.Printf("grammar %s: %d derivations\n", g.Kind, n.Load())
 		}
 		r.EngineError("VERIF_C45_COUNT set: counted only")
 		return
 	}
 
 	tally := c45NewTally()
-	pool := c45NewPool(tally, thorough)
-	capped := false
+	pool := c45NewPool(tally, thorough, r.OverBudget)
 
-	// (1) grammar
+	// (1) grammar: the derivations are partitioned by their first choices and
+	// each part is enumerated, serialized and checked by one worker
 	for _, g := range c45Gens {
-		n := int64(0)
-		c45Enumerate(thorough, g.Gen, func(vec []uint8, m proto.Message) bool {
-			n++
-			if n%4096 == 0 && r.OverBudget() {
-				capped = true
-				return false
-			}
-			pool.Add(c45Case{Kind: g.Kind, Family: "grammar", Vec: vec, Raw: c45Marshal(m), TypeURL: g.Kind.typeURL()})
-			return true
-		})
+		g := g
+		for _, prefix := range c45Prefixes(thorough, g.Gen, 3) {
+			prefix := prefix
+			pool.Go(func(emit func(c45Case) bool) {
+				c45EnumerateFrom(thorough, g.Gen, prefix, func(vec []uint8, m proto.Message) bool {
+					return emit(c45Case{Kind: g.Kind, Family: "grammar", Vec: vec, Raw: c45Marshal(m), TypeURL: g.Kind.typeURL()})
+				})
+			})
+		}
 	}
-	// (2) short byte strings
+	// (2) short byte strings: one task per (kind, length, first byte)
 	maxLen := r.Pick(2, 3)
-	for k := c45LDS; k <= c45EDS && !capped; k++ {
+	for k := c45LDS; k <= c45EDS; k++ {
+		k := k
 		url := k.typeURL()
-		pool.Add(c45Case{Kind: k, Family: "bytes", Raw: []byte{}, TypeURL: url})
+		pool.Go(func(emit func(c45Case) bool) { emit(c45Case{Kind: k, Family: "bytes", Raw: []byte{}, TypeURL: url}) })
 		for l := 1; l <= maxLen; l++ {
-			total := 1 << (8 * l)
-			for x := 0; x < total; x++ {
-				b := make([]byte, l)
-				for i := 0; i < l; i++ {
-					b[i] = byte(x >> (8 * (l - 1 - i)))
-				}
-				pool.Add(c45Case{Kind: k, Family: "bytes", Raw: b, TypeURL: url})
-			}
-			if r.OverBudget() {
-				capped = true
-				break
+			l := l
+			for first := 0; first < 256; first++ {
+				first := first
+				pool.Go(func(emit func(c45Case) bool) {
+					rest := 1 << (8 * (l - 1))
+					for x := 0; x < rest; x++ {
+						b := make([]byte, l)
+						b[0] = byte(first)
+						for i := 1; i < l; i++ {
+							b[i] = byte(x >> (8 * (l - 1 - i)))
+						}
+						if !emit(c45Case{Kind: k, Family: "bytes", Raw: b, TypeURL: url}) {
+							return
+						}
+					}
+				})
 			}
 		}
 	}
-	// (3) truncations, (4) flips / substitutions of the seeds
+	// (3) truncations, (4) flips / substitutions of the seeds: one task per seed
 	for si, s := range seeds {
-		if capped {
-			break
-		}
-		for l := 0; l < len(s.Raw); l++ {
-			pool.Add(c45Case{Kind: s.Kind, Family: "truncate", Seed: si, Pos: l, Raw: s.Raw[:l], TypeURL: s.TypeURL})
-		}
-		for pos := 0; pos < len(s.Raw); pos++ {
-			if thorough {
-				for v := 0; v < 256; v++ {
-					if byte(v) == s.Raw[pos] {
-						continue
-					}
-					b := append([]byte(nil), s.Raw...)
-					b[pos] = byte(v)
-					pool.Add(c45Case{Kind: s.Kind, Family: "flip", Seed: si, Pos: pos, Val: v, Raw: b, TypeURL: s.TypeURL})
-				}
-			} else {
-				for bit := 0; bit < 8; bit++ {
-					b := append([]byte(nil), s.Raw...)
-					b[pos] ^= 1 << bit
-					pool.Add(c45Case{Kind: s.Kind, Family: "flip", Seed: si, Pos: pos, Val: int(b[pos]), Raw: b, TypeURL: s.TypeURL})
+		si, s := si, s
+		pool.Go(func(emit func(c45Case) bool) {
+			for l := 0; l < len(s.Raw); l++ {
+				if !emit(c45Case{Kind: s.Kind, Family: "truncate", Seed: si, Pos: l, Raw: s.Raw[:l], TypeURL: s.TypeURL}) {
+					return
 				}
 			}
-		}
-		if r.OverBudget() {
-			capped = true
+		})
+		for pos := 0; pos < len(s.Raw); pos += 16 {
+			lo, hi := pos, pos+16
+			if hi > len(s.Raw) {
+				hi = len(s.Raw)
+			}
+			pool.Go(func(emit func(c45Case) bool) {
+				for pos := lo; pos < hi; pos++ {
+					if thorough {
+						for v := 0; v < 256; v++ {
+							if byte(v) == s.Raw[pos] {
+								continue
+							}
+							b := append([]byte(nil), s.Raw...)
+							b[pos] = byte(v)
+							if !emit(c45Case{Kind: s.Kind, Family: "flip", Seed: si, Pos: pos, Val: v, Raw: b, TypeURL: s.TypeURL}) {
+								return
+							}
+						}
+					} else {
+						for bit := 0; bit < 8; bit++ {
+							b := append([]byte(nil), s.Raw...)
+							b[pos] ^= 1 << bit
+							if !emit(c45Case{Kind: s.Kind, Family: "flip", Seed: si, Pos: pos, Val: int(b[pos]), Raw: b, TypeURL: s.TypeURL}) {
+								return
+							}
+						}
+					}
+				}
+			})
 		}
 	}
 	pool.Close()
+	capped := pool.Stopped
 	if capped {
 		r.Cap(P, "time budget reached before every input family was enumerated")
 	}
@@ -351,10 +381,12 @@ func TestVerif_C45_XDSParse(t *testing.T) {
 		oks = append(oks, k)
 	}
 	sort.Strings(oks)
+	perKind := map[string]int{}
 	for _, k := range oks {
 		r.Outcome(P, k)
-		r.Set(P, "n["+k+"]", tally.outcomes[k])
+		perKind[k[:3]]++
 	}
+	r.Set(P, "distinct_outcome_classes_per_kind", perKind)
 	r.Set(P, "distinct_outcome_classes", len(oks))
 	if !capped {
 		for _, g := range c45Gens {
